@@ -50,7 +50,7 @@ Apply(r) ==
   CASE r.e = "inc"    -> ObsInc(r.id, r.o, r.v, r.inert)
     [] r.e = "dlv" /\ r.k = "counter" -> ObsDeliverCounter(r.id, r.v, r.own)
     [] r.e = "dlv" /\ r.k = "gauge"   -> ObsDeliverGauge(r.id, r.v, r.own)
-    [] r.e = "dlv" /\ r.k = "timer"   -> ObsDeliverTimer(r.t, r.id, r.v)
+    [] r.e = "dlv" /\ r.k = "timer"   -> ObsDeliverTimer(r.t, r.id, r.v, r.wrongpath)
     [] r.e = "updcall" -> ObsUpdateCall(r.id, r.v, r.inert, r.o)
     [] r.e = "updret"  -> ObsUpdateReturn(r.id, r.inert, r.o)
     [] r.e = "passb"   -> ObsPassBegin(r.p)
